@@ -33,7 +33,7 @@ ASSUMPTIONS = [
 ]
 BOUNDS = {'quick': {'answers': '10 (known BUILT / non-BUILT / unknown circuit, non-circuit, None, DO_NOT_ATTACH, raises, False, 0, empty string)', 'delivery': 'immediate / Deferred / coroutine', 'streams': '1..2', 'via_circuit': '2 connections + 1 unrelated stream, every causally possible complete order of 8 events (enumerated from the causality relation)'},
           'thorough': {}}
-OUTSIDE = ['PriorityAttacher ordering among sub-attachers (the statement does not define it)', 'streams first seen in a state other than NEW']
+OUTSIDE = ['PriorityAttacher ordering among sub-attachers that give different answers (the statement does not define it)', 'streams first seen in a state other than NEW / NEWRESOLVE']
 
 
 @implementer(IReactorCore)
@@ -129,7 +129,7 @@ class W(object):
     pass
 
 
-def _answers(answer, mode, exit_target, two, later):
+def _answers(answer, mode, exit_target, two, later, resolve=False):
     w = W()
     w.answer, w.mode = answer, mode
     state, p, t = new_state()
@@ -158,7 +158,11 @@ def _answers(answer, mode, exit_target, two, later):
         sids = [1, 2] if two else [1]
         for sid in sids:
             host = ('www.s%d.example.%s.exit' % (sid, 'relayb') if exit_target else 'www.s%d.example' % sid)
-            state._stream_update('%d NEW 0 %s:80 SOURCE_ADDR=127.0.0.1:%d PURPOSE=USER' % (sid, host, 4000 + sid))
+            if resolve:
+                # a DNS request made through Tor: the stream's first event is NEWRESOLVE; it waits for a decision like any other
+                state._stream_update('%d NEWRESOLVE 0 %s:0 PURPOSE=DNS_REQUEST' % (sid, host))
+            else:
+                state._stream_update('%d NEW 0 %s:80 SOURCE_ADDR=127.0.0.1:%d PURPOSE=USER' % (sid, host, 4000 + sid))
             pump.run()
         if later:
             # more events for the same streams must not trigger another decision
@@ -209,10 +213,107 @@ def _answers(answer, mode, exit_target, two, later):
 
 
 @cond(quick=dict(parts=[{'answer': a} for a in range(11)], budget=100))
-def c09_answers(answer: int, mode: int, exit_target: bool, two: bool, later: bool) -> str:
-    """attacher answer kind x delivery mode x stream kind x one/two streams x later events of the same stream"""
+def c09_answers(answer: int, mode: int, exit_target: bool, two: bool, later: bool, resolve: bool) -> str:
+    """attacher answer kind x delivery mode x stream kind (.exit target / ordinary / DNS request) x one/two streams x later events of the same stream"""
     mode = api.pick(mode, 0, 2)
-    return _answers(answer, mode, True if exit_target else False, True if two else False, True if later else False)
+    if resolve:
+        assume(not exit_target and not later)
+    return _answers(answer, mode, True if exit_target else False, True if two else False, True if later else False, True if resolve else False)
+
+
+def _priority(nbefore, nafter, nremoved, answer, resolve, other_first):
+    """a PriorityAttacher in the attacher slot: installed with `nbefore` sub-attachers, `nafter` more added and `nremoved`
+    removed afterwards; the first remaining sub-attacher gives answer 0 (a BUILT circuit) / 4 (no preference) / 5 (DO_NOT_ATTACH)"""
+    from txtorcon.attacher import PriorityAttacher
+    w = W()
+    w.answer, w.mode = answer, 0
+    state, p, t = new_state()
+    pump = Pump(p, t)
+    errors = []
+    state._attacher_error = lambda f: errors.append(f) or None
+    model = TorModel()
+    with api.no_tracing():
+        for ev in (0, 1, 3):
+            kind, payload = model.apply(ev)
+            deliver(state, kind, payload)
+        w.built = state.circuits[1]
+        w.unbuilt = w.foreign = w.guardwait = None
+    reactor = FakeReactor()
+    try:
+        if other_first:
+            # another attacher already holds the slot: the composite is refused like any other attacher
+            first = Att(w)
+            state.set_attacher(first, reactor)
+            pump.run()
+            try:
+                state.set_attacher(PriorityAttacher(), reactor)
+                return R('second-attacher-accepted', 'an empty PriorityAttacher replaced the installed attacher: %r', pump.lines)
+            except RuntimeError:
+                pass
+            pump.run()
+            if pump.lines != ['SETCONF __LeaveStreamsUnattached=1']:
+                return R('refused-attacher-changed-tor-configuration', '%r', pump.lines)
+            reached()
+            return ''
+        pa = PriorityAttacher()
+        subs = []
+        for _ in range(nbefore):
+            a = Att(w)
+            subs.append(a)
+            pa.add_attacher(a)
+        state.set_attacher(pa, reactor)
+        pump.run()
+        if pump.lines != ['SETCONF __LeaveStreamsUnattached=1']:
+            return R('installing-attacher-did-not-set-LeaveStreamsUnattached=1', 'PriorityAttacher with %d sub-attachers: %r', nbefore, pump.lines)
+        for _ in range(nafter):
+            a = Att(w)
+            subs.append(a)
+            pa.add_attacher(a)
+        for a in subs[:nremoved]:
+            pa.remove_attacher(a)
+        live = subs[nremoved:]
+        if resolve:
+            state._stream_update('1 NEWRESOLVE 0 www.s1.example:0 PURPOSE=DNS_REQUEST')
+        else:
+            state._stream_update('1 NEW 0 www.s1.example:80 SOURCE_ADDR=127.0.0.1:4001 PURPOSE=USER')
+        pump.run()
+        got = pump.attach_lines(1)
+        for a in subs[:nremoved]:
+            if a.calls:
+                return R('removed-sub-attacher-consulted')
+        if live:
+            if live[0].calls != [1]:
+                return R('attacher-not-consulted-exactly-once', 'first sub-attacher calls %r', live[0].calls)
+            # answer 4 (None) passes the question on to the next sub-attacher (all give the same answer here)
+            want = {0: ['ATTACHSTREAM 1 1'], 4: ['ATTACHSTREAM 1 0'], 5: []}[answer]
+        else:
+            want = ['ATTACHSTREAM 1 0']       # nobody has a preference: Tor chooses
+        if got != want:
+            return R('wrong-attachment-decision-sent', 'PriorityAttacher %d+%d-%d answer %d: sent %r want %r', nbefore, nafter, nremoved, answer, got, want)
+        if errors:
+            return R('spurious-attacher-error-report', '%r', errors[0])
+        n = len(pump.lines)
+        state.set_attacher(None, reactor)
+        pump.run()
+        if pump.lines[n:] != ['SETCONF __LeaveStreamsUnattached=0']:
+            return R('removing-attacher-did-not-reset-LeaveStreamsUnattached', '%r', pump.lines[n:])
+    except Exception as e:
+        return R('exception', '%s: %s', type(e).__name__, e)
+    reached()
+    return ''
+
+
+@cond(quick=dict(parts=[{'answer': a} for a in (0, 4, 5)], budget=100))
+def c09_priority(answer: int, nbefore: int, nafter: int, nremoved: int, resolve: bool, other_first: bool) -> str:
+    """the composite PriorityAttacher as the installed attacher: empty or populated at installation, sub-attachers added / removed later"""
+    nbefore = api.pick(nbefore, 0, 2)
+    nafter = api.pick(nafter, 0, 2)
+    nremoved = api.pick(nremoved, 0, 2)
+    assume(nremoved <= nbefore + nafter)
+    if other_first:
+        assume(nbefore == 0 and nafter == 0 and nremoved == 0 and not resolve)
+    with api.no_tracing():
+        return _priority(nbefore, nafter, nremoved, answer, True if resolve else False, True if other_first else False)
 
 
 # ------------------------------------------------------------------ via-circuit
